@@ -349,6 +349,15 @@ class BitEval:
                         return self.ev(ret, depth + 1)
             if e.attr == "value":
                 return self.ev(e.value, depth + 1)
+        if isinstance(e, ast.Subscript) and isinstance(e.value, (ast.Name, ast.Attribute)) and not isinstance(e.slice, ast.Slice):
+            # TABLE[key] with TABLE a class / module constant written as a dict display
+            try:
+                from . import inline as _inl
+                d_ = _inl.definition_of(self.repo, self.ci, self.ci.file if self.ci is not None else None, e.value)
+            except Exception:
+                d_ = None
+            if isinstance(d_, ast.Dict):
+                e = ast.copy_location(ast.Subscript(value=d_, slice=e.slice, ctx=ast.Load()), e)
         if isinstance(e, ast.Subscript) and isinstance(e.value, ast.Dict):
             vals = []
             for v in e.value.values:
